@@ -1065,6 +1065,7 @@ def run(chk, cases=None):
             chk.report({"case": cases[i], "impl": outs[i], "what": "metamorphic: " + m["what"],
                         "sub_case": m["sub"], "sub_impl": m["sub_out"]})
     chk.extra["metamorphic_cases"] = nmeta
+    source_tie(chk, cases, outs)
     chk.extra["variant_disagreements"] = len(alt_bad)
     for i, a, oa in alt_bad[:6]:
         chk.report({"case": cases[i], "impl": outs[i], "variant": a, "variant_impl": oa,
@@ -1095,6 +1096,62 @@ def run(chk, cases=None):
         else:
             rec, _ = judge(chk, cases[bad[0]], outs[bad[0]])
             chk.report(rec, no_failing_input=True)
+
+
+# ------------------------------------------------------------------------------------------
+# source tie (notes/TIE_GUIDE.md, notes/C09_tie_report.md): the Python text of pad_variable and _get_padding_buffers,
+# translated to MiniPy (Gen/C09Src.v) and interpreted in Coq with the torch calls given the meaning of MiniTorch.OpsC09
+# (PV.C09.SrcRun.ext09), is evaluated on the run's pad_variable cases and compared with what the implementation did
+# ------------------------------------------------------------------------------------------
+IMPORTS_SRC = IMPORTS + "From PV Require C09.SrcRun.\n"
+SRC_TIE_THEOREMS = ["c09_source_pad_variable_is_model", "c09_source_padding_buffers_is_model", "c09_source_pad_variable_rows"]
+SRC_TIE_CAP = 1500
+
+
+def src_pad_term(case, out):
+    a = _args(case)
+    code, impl = _impl_term(case, out, False)
+    return (f"SrcRun.src_pad_variable_check {a['T']} {a['F']} {a['v']} {a['md']} {a['x']} {a['lens']} {a['pl']} {a['pr']} "
+            f"{code} {impl}")
+
+
+def source_tie(chk, cases, outs):
+    """validates translator + MiniPy.Interp + ext09 + MiniTorch.OpsC09 against CPython + torch on (a sample of) the run's
+    pad_variable cases; independent of whether the tie lemmas still compile"""
+    import time
+    from vlib import CoqError
+    idx = [i for i, (c, o) in enumerate(zip(cases, outs))
+           if c.get("api") == "pad" and len(c["pl"]) == len(c["pr"]) and (o[0] == "ok" or o[1] in (1, 2, 3))]
+    total = len(idx)
+    if total > SRC_TIE_CAP:     # evenly spaced sample, first and last kept
+        idx = sorted({idx[(k * (total - 1)) // (SRC_TIE_CAP - 1)] for k in range(SRC_TIE_CAP)})
+    if not idx:
+        chk.extra["source_tie_run"] = {"cases": 0, "disagreements": 0}
+        return
+    t0 = time.time()
+    try:
+        res = coq_eval_bools(chk.workdir, IMPORTS_SRC, [src_pad_term(cases[i], outs[i]) for i in idx], shard=120, tag="src")
+    except CoqError as e:
+        chk.extra["source_tie_run"] = "not evaluated: " + str(e)[-400:]
+        return
+    bad = [i for i, ok in zip(idx, res) if not ok]
+    info = {"cases": len(idx), "of_pad_cases": total, "disagreements": len(bad), "wall_s": round(time.time() - t0, 1),
+            "N=0": sum(1 for i in idx if cases[i]["N"] == 0), "max_N": max(cases[i]["N"] for i in idx),
+            "max_T": max(cases[i]["T"] for i in idx), "max_F": max(_F(cases[i]) for i in idx)}
+    for m in MODES:
+        info["mode=" + m] = sum(1 for i in idx if cases[i]["mode"] == m)
+    for k, name in ((0, "ok"), (1, "ValueError"), (2, "RuntimeError"), (3, "NotImplementedError")):
+        info["outcome=" + name] = sum(1 for i in idx if (0 if outs[i][0] == "ok" else outs[i][1]) == k)
+    chk.extra["source_tie_run"] = info
+    chk.count("source_tie_cases", len(idx))
+    if bad:
+        i = min(bad, key=lambda k: len(json.dumps(cases[k])))
+        chk.report({"what": "the Python source of pad_variable / _get_padding_buffers as translated to MiniPy and interpreted in "
+                            "Coq (PV.C09.SrcRun.src_pad_variable, torch calls = PV.MiniTorch.OpsC09) does not reproduce the "
+                            "implementation's outcome: translator / interpreter / ext09 / MiniTorch no longer describe the code",
+                    "disagreeing_cases": len(bad), "case": _strip(cases[i]), "impl": outs[i],
+                    "correspondence": "tie:C09:py2coq+MiniPy.Interp+MiniTorch:pad_variable",
+                    "theorems_at_stake": SRC_TIE_THEOREMS}, no_failing_input=True)
 
 
 def replay(chk, path):
